@@ -12,7 +12,7 @@ Decided:
 Not decided: antisymmetry and the ordering of well-formed versions (values)."""
 import re
 
-from .. import facts, expr as X
+from .. import facts, expr as X, nullness
 from ..facts import walk
 from ..report import Check, canon
 from ..cap import Cap
@@ -35,6 +35,7 @@ def run(tier="quick"):
                             "global-reference and callee inspection")
     chk.rule("B1", "scratch-buffer writes bounded, cursors inside the inputs, buffers read only after being terminated")
     chk.rule("P1", "every loop makes progress")
+    chk.rule("U2", "scratch buffers are terminated afresh in the iteration that reads them")
     chk.rule("X1", "numeric components are not ordered through a wrapping difference / narrowed conversion")
     chk.rule("E1", "no global state, only pure callees")
     chk.rule("B2", "the trace-output primitives called on its behalf keep every access inside their own buffers")
@@ -64,6 +65,75 @@ def run(tier="quick"):
         if o.kind == "unterminated" and not o.ok:
             chk.ob("B1", f.name, "read-before-write:" + X.render(o.node)[:30], False, loc=f.loc(o.node),
                    detail="%s reads a scratch buffer as a string on a path where nothing terminated it: the result depends on stack contents" % f.name)
+    # U2 every run is compared on its own: a scratch buffer that the main loop fills through a cursor is terminated afresh in the
+    # iteration that reads it - each read of the buffer as a string is dominated by a store of 0 through a cursor of that buffer
+    # made inside the loop.  Otherwise a run shorter than an earlier one keeps the earlier run's tail ("10" then "9" reads "90").
+    ccfg = nullness.prepared_cfg(f, NORETURN)
+    arrays = {d for d, v in f.vardecls.items() if v.get("alen") and (v.get("esz") or 1) == 1}
+    nu2 = 0
+    for A in sorted(arrays):
+        def is_A(e, A=A):
+            e = X.strip(e)
+            return e is not None and e.get("k") == "ref" and e.get("d") == A
+        cursors = set()
+        for d, v in f.vardecls.items():
+            if v.get("tp") and v.get("init") is not None and is_A(v["init"]):
+                cursors.add(d)
+        for x in walk(f.body):
+            if x.get("k") == "assign" and x.get("op") == "=" and is_A(x["ch"][1]):
+                l = X.strip(x["ch"][0])
+                if l.get("k") == "ref" and l.get("tp"):
+                    cursors.add(l["d"])
+
+        def zero_valued(e):
+            e = X.strip(e)
+            if e is None:
+                return False
+            if X.const_val(e) == 0:
+                return True
+            return e.get("k") == "assign" and e.get("op") == "=" and zero_valued(e["ch"][1])
+        terms = []
+        for x in walk(f.body):
+            if x.get("k") == "assign" and x.get("op") == "=" and zero_valued(x["ch"][1]):
+                l = X.strip(x["ch"][0])
+                if l.get("k") in ("un", "index") and (l.get("op") == "*" or l.get("k") == "index"):
+                    if any(y.get("k") == "ref" and (y.get("d") in cursors or y.get("d") == A) for y in walk(l["ch"][0])):
+                        terms.append(x)
+        outer = [lp for lp in walk(f.body) if lp.get("k") in ("for", "while", "do")]
+        outer = [lp for lp in outer if not any(lp is not o and any(y is lp for y in walk(o.get("body") or {})) for o in outer)]
+        for lp in outer:
+            body_ids = {y["i"] for y in walk(lp.get("body") or {})}
+            uses = []
+            for c in X.calls_in(lp.get("body") or {}):
+                for a in c["ch"][1:]:
+                    if is_A(a) or (X.strip(a) is not None and X.strip(a).get("k") == "ref" and X.strip(a).get("d") in cursors):
+                        uses.append(c)
+            writes = set()
+            for x in walk(lp.get("body") or {}):
+                if x.get("k") == "assign":
+                    l = X.strip(x["ch"][0])
+                    if l.get("k") in ("un", "index"):
+                        for y in walk(l):
+                            writes.add(y["i"])
+            for x in walk(lp.get("body") or {}):
+                if x.get("k") == "un" and x.get("op") == "*" and x["i"] not in writes and any(
+                        y.get("k") == "ref" and y.get("d") in cursors for y in walk(x["ch"][0])):
+                    # a read through a cursor that is only ever used for reading (n1 = buff1; *n1 == '0')
+                    cd = [y["d"] for y in walk(x["ch"][0]) if y.get("k") == "ref" and y.get("d") in cursors]
+                    if not any(y.get("k") == "ref" and y.get("d") in cd and y["i"] in writes for y in walk(lp.get("body") or {})):
+                        uses.append(x)
+            filled = any(y["i"] in writes and y.get("k") == "ref" and y.get("d") in cursors for y in walk(lp.get("body") or {}))
+            if not filled:
+                continue
+            for u_ in uses:
+                nu2 += 1
+                ok = any(t["i"] in body_ids and ccfg.node_dominates(t["i"], u_["i"]) for t in terms)
+                chk.ob("U2", f.name, "fresh-terminator:%s@%s" % (f.vardecls[A]["n"], canon(f, u_)[:30]), ok, loc=f.loc(u_),
+                       detail="%s reads the scratch buffer `%s` as a string (%s) without a terminator stored in this iteration of the main "
+                              "loop: a run shorter than an earlier one keeps the earlier run's tail, so the comparison depends on what "
+                              "was compared before (\"1.10.9\" vs \"1.10.10\")" % (f.name, f.vardecls[A]["n"], X.render(u_)[:40]),
+                       proof="a store of 0 through a cursor of the buffer, inside the loop, dominates the read")
+    chk.count("scratch_buffer_reads", nu2, floor=8)
     # X1 numeric runs are ordered numerically for every length: the sign idiom must not be applied to a difference of two values
     # obtained from an unbounded conversion (strtol, atoi ...), and such a value must not be narrowed first - both wrap for
     # components >= 2^31 and the order of the versions comes out wrong
